@@ -128,9 +128,9 @@ class PySim:
         try:
             sim.run(fields[0])
         except Exception as e:  # the real code must never raise on an in-range state
-            self.dirty.update(a for a, _ in memory.log)
+            self.dirty.update(a for a, _ in memory.log if 0 <= a < 65536)
             return f'exception {type(e).__name__}: {e}'
-        self.dirty.update(a for a, _ in memory.log)
+        self.dirty.update(a for a, _ in memory.log if 0 <= a < 65536)
         r = list(sim.registers)
         return (f"{' '.join(map(str, r[:24]))} ; {' '.join(map(str, r[24:30]))} ; "
                 f"{' '.join(f'{p}:{v}' for p, v in tr.out_log)} ; {' '.join(map(str, tr.in_log))} ; "
